@@ -233,7 +233,8 @@ pub fn gen_quake(c: &mut Chooser, ver: Ver, player_counts: &[usize], names_with_
         .map(|i| {
             if i < 2 {
                 let name = if names_with_spaces {
-                    pick(c, &["Al ice".to_string(), "a b c".to_string()])
+                    // (blanks at the edges of a quoted name belong to the name)
+                    pick(c, &["Al ice".to_string(), "a b c".to_string(), " pad me ".to_string(), "  lead".to_string(), "trail  ".to_string()])
                 } else {
                     pick(c, &[
                         if i == 0 { "Alice".to_string() } else { "Bob".to_string() },
